@@ -756,6 +756,7 @@ fn thread_body(t: usize, nthreads: usize, nops: u32, cfg: GenCfg, errs: Arc<Mute
                     if k >= t {
                         k += 1;
                     }
+                    trace::bump(C::arena_handoffs);
                     tr!("T{} hand-off to T{} then parse again doc={}", t, k, oracle::truncate(&text));
                     let id = new_doc_id();
                     trace::bump(C::dom_parsed_roots);
@@ -893,7 +894,11 @@ pub fn run() -> SimResult {
     cfg.classes = gen::CL_PLAIN | if chance(1, 3) { gen::CL_QUOTE | gen::CL_U2 } else { 0 };
     // swarm knob: freed blocks are poisoned and quarantined (use-after-free reads poison), or handed out
     // again at once by exact size (stale address-keyed state gets its chance)
-    crate::heap::set_reuse_mode(draw(3) == 0, ((draw(u32::MAX) as u64) << 20) ^ draw(u32::MAX) as u64);
+    let reuse = draw(3) == 0;
+    if reuse {
+        trace::bump(C::heap_reuse_runs);
+    }
+    crate::heap::set_reuse_mode(reuse, ((draw(u32::MAX) as u64) << 20) ^ draw(u32::MAX) as u64);
     let allow_big = chance(1, 40) && !cfg!(miri);
     NEXT_KEY.with(|c| c.set(0));
     let baseline = sched::ARENAS_LIVE.load(Ordering::SeqCst);
